@@ -106,19 +106,19 @@ func loadProgram(repo string, patterns []string) (*loaded, error) {
 }
 
 type summaryRow struct {
-	Name     string   `json:"name"`
-	Kind     string   `json:"kind"`
-	Status   string   `json:"status"`
-	Solver   string   `json:"solver,omitempty"`
-	Secs     float64  `json:"secs"`
-	Pos      string   `json:"pos,omitempty"`
-	Clause   string   `json:"clause,omitempty"`
-	N        int      `json:"instances"`
-	Props    []string `json:"props,omitempty"`
-	Notes    []string `json:"notes,omitempty"`
-	Query    string   `json:"query,omitempty"`
-	Model    map[string]string `json:"model,omitempty"`
-	inst     []*Obligation
+	Name   string            `json:"name"`
+	Kind   string            `json:"kind"`
+	Status string            `json:"status"`
+	Solver string            `json:"solver,omitempty"`
+	Secs   float64           `json:"secs"`
+	Pos    string            `json:"pos,omitempty"`
+	Clause string            `json:"clause,omitempty"`
+	N      int               `json:"instances"`
+	Props  []string          `json:"props,omitempty"`
+	Notes  []string          `json:"notes,omitempty"`
+	Query  string            `json:"query,omitempty"`
+	Model  map[string]string `json:"model,omitempty"`
+	inst   []*Obligation
 }
 
 func propsHave(ps []string, p string) bool {
